@@ -610,9 +610,118 @@ def style_obj(sty):
                                 base64_chunk_separator=bytes(bs).decode(), txt_is_utf8=bool(u8))
 
 
+# ------------------------------------------------------------------ every entry of every value <-> mnemonic table
+ENUM_KINDS = ("etype", "ectype", "ealg", "ealgnum", "alg", "escheme", "ercode")
+
+
+def enum_values(kind):
+    """every value that has a mnemonic in the table of the kind, its neighbours and unknown numbers"""
+    if kind == "etype":
+        named = sorted({int(t) for t in dns.rdatatype.RdataType})
+        return sorted(set(named) | {0, 3, 4, 110, 250, 260, 65279, 65280, 65534, 65535})
+    if kind == "ectype":
+        return list(range(0, 12)) + [251, 252, 253, 254, 255, 256, 65535]
+    if kind in ("ealg", "ealgnum", "alg"):
+        return list(range(0, 19)) + [251, 252, 253, 254, 255]
+    if kind == "escheme":
+        return [0, 1, 2, 3, 254, 255]
+    if kind == "ercode":
+        return list(range(0, 26)) + [4094, 4095]
+    raise ValueError(kind)
+
+
+def enum_names():
+    """(rdtype, kind, text of a whole record with the mnemonic in place): text -> value -> text"""
+    import dns.dnssectypes
+    import dns.rcode
+    import dns.rdtypes.ANY.CERT as _cert
+    out = []
+    for n in sorted(_cert._ctype_by_name):
+        out.append((37, "%s 1 8 AQID" % n))
+        out.append((37, "%s 1 8 AQID" % n.lower()))
+    for a in dns.dnssectypes.Algorithm:
+        out.append((37, "1 1 %s AQID" % a.name))
+        out.append((37, "1 1 %s AQID" % a.name.lower()))
+        out.append((48, "256 3 %s AQID" % a.name))
+        out.append((43, "1 %s 2 %s" % (a.name, "ab" * 32)))
+        out.append((46, "A %s 2 3600 20200101000000 20030101000000 2143 foo.example. AQID" % a.name))
+    for t in dns.rdatatype.RdataType:
+        out.append((46, "%s 8 2 3600 20200101000000 20030101000000 2143 foo.example. AQID" % t.name.replace("_", "-")))
+        out.append((66, "%s NOTIFY 53 foo.example." % t.name.replace("_", "-")))
+    for r in list(dns.rcode.Rcode.__members__) + ["BADSIG", "badkey", "23", "4095", "4096"]:
+        out.append((250, "hmac-sha256. 1 300 3 AQID 4 %s 0" % r))
+    for s_ in ("NOTIFY", "notify", "1", "2", "255", "256"):
+        out.append((66, "CDS %s 53 foo.example." % s_))
+    import dns.rdtypes.ANY.KEY as _key
+    for f in _key.LegacyFlag.__members__:
+        out.append((25, "%s 3 8 AQID" % f))
+        out.append((25, "%s|ZONE 3 8 AQID" % f))
+    for pr in _key.Protocol.__members__:
+        out.append((25, "256 %s 8 AQID" % pr))
+    return out
+
+
+def enum_table_cases(ctx):
+    """every table entry, value -> text -> value and text -> value -> text, through the model (ops 40 / 41 / 44 / 45)
+    and through the record-level oracle; independent of the seed"""
+    import random as _random
+    rng = _random.Random(20240905)
+    sty = [None, 0, 0, b" ", 0, b" ", 0]
+    recorded = set()
+    for rdtype in sorted(SCHEMA):
+        kinds = SCHEMA[rdtype][0].split()
+        for i, k in enumerate(kinds):
+            if k not in ENUM_KINDS:
+                continue
+            base = None
+            for v in enum_values(k):
+                for _ in range(8):
+                    vals = fixup(rng, rdtype, [gen_field(rng, kk) for kk in kinds]) if base is None else list(base)
+                    vals[i] = v
+                    try:
+                        rd = build_rdata(rdtype, vals)
+                        text = rd.to_text()
+                        wire = rd.to_wire(origin=dns.name.root)
+                    except Exception:  # noqa  (value outside the constructor's range: not a table entry of this type)
+                        if base is not None:
+                            break
+                        continue
+                    base = vals
+                    yield "enum-to-text", [40, rdtype, vals, sty]
+                    yield "enum-from-text", [41, rdtype, enc(text), [None, 1, None]]
+                    if (k, v) not in recorded or k != "etype":
+                        recorded.add((k, v))
+                        yield "rd-enum-value", [100, class_type(rdtype)[0], class_type(rdtype)[1], wire, 0]
+                    break
+    for rdtype, text in enum_names():
+        yield "enum-name-from-text", [41, rdtype, enc(text), [None, 1, None]]
+        yield "rd-enum-name", [101, int(dns.rdataclass.IN), rdtype, text.encode(), 0, 0]
+    # SVCB / HTTPS parameter keys: every registered key, its neighbours, unregistered ones
+    one = {0: [[0, 1, [3]], [3, 3, 53]], 1: [[1, 2, [b"h2", b"h3"]]], 2: [[1, 2, [b"h2"]], [2, 0, 0]], 3: [[3, 3, 443]],
+           4: [[4, 4, [b"\x01\x02\x03\x04"]]], 5: [[5, 5, b"\x01\x02\x03"]], 6: [[6, 6, [bytes(15) + b"\x01"]]], 7: [[7, 7, b"/dns-query"]],
+           8: [[8, 0, 0]], 9: [[9, 7, b"x"]], 10: [[10, 2, [b"a", b"b"]]], 11: [[11, 7, b"y"]], 12: [[12, 0, 0]], 65534: [[65534, 7, b"z"]],
+           65535: [[65535, 7, b"\x00"]]}
+    for k in sorted(one):
+        for rdtype in (64, 65):
+            params = one[k]
+            yield "svcb-key-to-text", [44, 1, [b"t", b""], params, sty]
+            try:
+                rd = build_svcb(rdtype, 1, [b"t", b""], params)
+                yield "svcb-key-from-text", [45, rdtype, enc(rd.to_text()), [None, 1, None]]
+                yield "rd-enum-value", [100, int(dns.rdataclass.IN), rdtype, rd.to_wire(), 0]
+            except Exception:  # noqa
+                pass
+    import dns.rdtypes.svcbbase as _S
+    for name in [m.name for m in _S.ParamKey] + ["key0", "key1", "key7", "key9", "key10", "key11", "KEY65535"]:
+        for spelling in (name, name.lower(), name.lower().replace("_", "-")):
+            for val in ("", "=x", '="1"'):
+                yield "svcb-key-name", [45, 64, enc("1 . " + spelling + val), [None, 1, None]]
+
+
 def schema_cases(ctx):
     rng = ctx.rng
     types = sorted(SCHEMA)
+    yield from enum_table_cases(ctx)
     # directed: the constructors' cross-field checks (every digest type / hash algorithm, right and wrong length)
     for rdtype in (43, 59, 32769):
         for dt in (0, 1, 2, 3, 4, 5, 255, 256):
